@@ -203,6 +203,20 @@ pub struct F33 {
     pub w: F32,
 }
 
+/// list items that collect their content in a `$value` list of their own, next to another list
+#[derive(Debug, Clone, PartialEq, Serialize, Deserialize)]
+pub struct Inner36 {
+    #[serde(rename = "$value", default)]
+    pub v: Vec<Choice>,
+}
+#[derive(Debug, Clone, PartialEq, Serialize, Deserialize)]
+pub struct F36 {
+    #[serde(default)]
+    pub a: Vec<Inner36>,
+    #[serde(default)]
+    pub b: Vec<u32>,
+}
+
 /// list items that hold a struct-valued (non-list) field, between two other lists
 #[derive(Debug, Clone, PartialEq, Serialize, Deserialize)]
 pub struct Meta35 {
@@ -368,7 +382,7 @@ pub struct H07 {
     pub v: Vec<Option<Choice>>,
 }
 
-pub const TYPES: &[&str] = &["F01", "F02", "F03", "F04", "F05", "F07", "F08", "F11", "F15", "F16", "F17", "F18", "F19", "F20", "F22", "F23", "F24", "F25", "F26", "F27", "F28", "F29", "F30", "F31", "F32", "F33", "F34", "F35", "H01", "H02", "H05", "H06", "H07"];
+pub const TYPES: &[&str] = &["F01", "F02", "F03", "F04", "F05", "F07", "F08", "F11", "F15", "F16", "F17", "F18", "F19", "F20", "F22", "F23", "F24", "F25", "F26", "F27", "F28", "F29", "F30", "F31", "F32", "F33", "F34", "F35", "F36", "H01", "H02", "H05", "H06", "H07"];
 
 /// Apply `$body` with `T` bound to the family type named `$name`.
 #[macro_export]
@@ -396,6 +410,7 @@ macro_rules! with_type {
             "F26" => { type $T = $crate::family::F26; $body }
             "F29" => { type $T = $crate::family::F29; $body }
             "F35" => { type $T = $crate::family::F35; $body }
+            "F36" => { type $T = $crate::family::F36; $body }
             "F30" => { type $T = $crate::family::F30; $body }
             "F31" => { type $T = $crate::family::F31; $body }
             "F32" => { type $T = $crate::family::F32; $body }
@@ -436,6 +451,37 @@ pub fn ser(ty: &str, v: &Value, o: &SerOpts) -> Result<String, String> {
         s.expand_empty_elements(o.expand_empty);
         val.serialize(s).map_err(|e| format!("se: {e}"))?;
         Ok(out)
+    })
+}
+
+/// A sink that accepts `limit` bytes and then fails every write: `to_utf8_io_writer` / `Writer::write_serializable` must report
+/// the failure (an error instead of a document), never return Ok with part of the document in the sink.
+/// Returns (to_utf8_io_writer: ok?, bytes in the sink), (write_serializable: ok?, bytes in the sink).
+pub fn ser_failing_sink(ty: &str, v: &Value, root: &str, limit: usize) -> Result<[(bool, Vec<u8>); 2], String> {
+    struct Failing {
+        out: Vec<u8>,
+        limit: usize,
+    }
+    impl std::io::Write for Failing {
+        fn write(&mut self, b: &[u8]) -> std::io::Result<usize> {
+            if self.out.len() >= self.limit {
+                return Err(std::io::Error::new(std::io::ErrorKind::Other, "verif: sink is full"));
+            }
+            let n = b.len().min(self.limit - self.out.len()).min(5).max(1);
+            self.out.extend_from_slice(&b[..n]);
+            Ok(n)
+        }
+        fn flush(&mut self) -> std::io::Result<()> {
+            Ok(())
+        }
+    }
+    with_type!(ty, T, {
+        let val: T = serde_json::from_value(v.clone()).map_err(|e| format!("json: {e}"))?;
+        let mut s1 = Failing { out: Vec::new(), limit };
+        let r1 = quick_xml::se::to_utf8_io_writer(&mut s1, &val).is_ok();
+        let mut w = quick_xml::Writer::new(Failing { out: Vec::new(), limit });
+        let r2 = w.write_serializable(root, &val).is_ok();
+        Ok([(r1, s1.out), (r2, w.into_inner().out)])
     })
 }
 
